@@ -10,6 +10,9 @@ Case kinds (first element):
                                transport: AddMatch / RemoveMatch texts, signals delivered as bytes
   ['cdaemon', events]          the same against the reference daemon (a multiset of rule texts that answers
                                AddMatch / RemoveMatch and forwards a broadcast signal iff a held rule is satisfied)
+  ['async', declared, events]  client and proxy calls with the daemon answering LATER: events as above plus
+                               [3, cb] ro.notifyOnSignal('Tick', cb), [4, id] ro.cancelSignalNotification(id),
+                               [5] the oldest unanswered AddMatch / RemoveMatch call is taken by the daemon and answered
   ['text', rule]               client.addMatch text of the rule, read back by the real Bus.dbus_AddMatch
   ['rawtext', text]            any text through Bus.dbus_AddMatch (malformed stream)
   ['proxy', declared, msg, cancelled]   RemoteDBusObject.notifyOnSignal on a real connection
@@ -49,6 +52,15 @@ ASSUMPTIONS = [
     'plumbing of callRemote is property C08); an unknown message type name makes router.addMatch raise after '
     'the bus accepted the text, which shows as a failed Deferred',
     'Twisted log output of the exceptions swallowed in Rule.match is discarded',
+    'async cases: the stand-in daemon takes a written AddMatch / RemoveMatch call, and its reply arrives, only at an '
+    '"answer" event (oldest call first); between writing and answering nothing about that call has happened at the '
+    'daemon.  A rule counts as live from the reply of its AddMatch until a RemoveMatch for it is WRITTEN; from then until '
+    'that call is answered it may or may not be called; after a successful answer it must stay silent.  A refused '
+    'RemoveMatch for a rule that was live or being removed when it was written is client:remove-refused.  At the client '
+    'layer a rule id is handed to conn.delMatch at most once (conn.delMatch has no guard: a second call before the '
+    'reply writes a second RemoveMatch - the proxy layer guards with _signalRules, which is what these cases exercise '
+    'with cancels repeated back to back and around the reply); the Deferred of the delMatch issued by '
+    'cancelSignalNotification is not handed out and not compared',
     'cdaemon cases: the daemon is the reference daemon of Spec/DaemonSpec.v (per connection a multiset of rule texts; '
     'AddMatch adds one instance or answers MatchRuleInvalid for a text that cannot be read / an unknown type name, '
     'RemoveMatch removes one instance or answers MatchRuleNotFound); each call is answered before the next event; '
@@ -672,6 +684,189 @@ class DaemonRun:
         return [2, 1 if fwd else 0, sorted([i, t] for k, i, t in log)], ('sig', log, start, esc)
 
 
+PRULE = ['signal', None, 'org.ex.P', 'Tick', '/a/b', None, None, [], [], None]     # the rule notifyOnSignal registers
+
+
+def gate_ok(declared, msg):
+    return (declared or '') == (sig_of(msg) or '')
+
+
+class AsyncRun:
+    """A real DBusClientConnection and a real RemoteDBusObject on it; the stand-in for the reference daemon keeps the
+    method calls the client writes in a queue and takes / answers the oldest one only at an 'answer' event."""
+
+    def __init__(self, I, declared, rules_by_text, accepted, verdict):
+        self.I = I
+        self.p = I.connect()
+        iface = I.interface.DBusInterface('org.ex.P', I.interface.Signal('Tick', declared if declared is not None else ''))
+        if declared is None:
+            iface.signals['Tick'].sig = None
+        self.ro = I.objects.RemoteDBusObject(self.p.objHandler, ':1.9', '/a/b', [iface])
+        self.declared = declared
+        self.seen = len(self.p.transport.out)
+        self.queue = []            # unanswered calls: {'kind': 0 add / 1 remove, 'text', 'serial', 'rec'}
+        self.held = {}
+        self.rules_by_text = rules_by_text
+        self.accepted = accepted
+        self.verdict = verdict
+        self.status = {}           # rule id -> 'live' | 'removing' | 'removed'   (from what was written / answered)
+        self.info = {}             # rule id -> (rule, tag, via proxy)
+        self.log = None
+        self.flip = False
+        self.refused = []          # RemoveMatch calls the daemon refused: (id, status when written)
+
+    def collect(self, rec):
+        p, I = self.p, self.I
+        wires = []
+        while self.seen < len(p.transport.out):
+            raw = p.transport.out[self.seen]
+            self.seen += 1
+            m = I.message.parseMessage(raw, [])
+            if m._messageType != 1:
+                continue
+            if m.member in ('AddMatch', 'RemoveMatch') and m.interface == 'org.freedesktop.DBus' \
+                    and m.destination == 'org.freedesktop.DBus' and m.signature == 's' and len(m.body) == 1:
+                kind = 0 if m.member == 'AddMatch' else 1
+                wires.append([kind, m.body[0]])
+                self.queue.append({'kind': kind, 'text': m.body[0], 'serial': m.serial, 'rec': rec,
+                                   'reply': m.expectReply})
+            else:
+                wires.append(['other', m.member])
+        return wires
+
+    def forwards(self, msg):
+        for t, n in self.held.items():
+            if n > 0 and any(self.verdict(r, msg)[0] for r in self.rules_by_text.get(t, [])):
+                return True
+        return False
+
+    def issue_del(self, rec, wires):
+        i = rec['id']
+        rec['was'] = self.status.get(i)
+        if any(w[0] == 1 for w in wires) and self.status.get(i) == 'live':
+            self.status[i] = 'removing'
+
+    def step(self, e):
+        p, I = self.p, self.I
+        k = e[0]
+        if k in (0, 3):
+            cbd = e[2] if k == 0 else e[1]
+            tag, raises = cbd[0], cbd[1]
+            box = [None]
+            rec = {'kind': 'add', 'rule': e[1] if k == 0 else PRULE, 'tag': tag, 'proxy': k == 3, 'got': [], 'box': box}
+
+            def cb(*args):
+                self.log.append(('call', box[0], tag))
+                if raises:
+                    RAISED[0] += 1
+                    cb_raise(tag)
+            try:
+                if k == 0:
+                    self.flip = not self.flip
+                    d = p.addMatch(cb, **Impl.client_kwargs(e[1], self.flip))
+                else:
+                    d = self.ro.notifyOnSignal('Tick', cb)
+            except (Exception, CbOdd) as x:
+                return [0, self.collect(rec), [0, exc_code(x)]], None
+            d.addCallbacks(lambda i: rec['got'].append([1, i]), lambda f: rec['got'].append([0, exc_code(f.value)]))
+            return [0, self.collect(rec), [1]], None
+        if k in (1, 4):
+            rec = {'kind': 'del', 'id': e[1], 'got': [], 'cancel': k == 4}
+            try:
+                if k == 1:
+                    d = p.delMatch(e[1])
+                    d.addCallbacks(lambda _: rec['got'].append([1]), lambda f: rec['got'].append([0, exc_code(f.value)]))
+                else:
+                    d = self.ro.cancelSignalNotification(e[1])
+                    if d is not None and hasattr(d, 'addErrback'):
+                        d.addErrback(lambda f: None)
+            except (Exception, CbOdd) as x:
+                wires = self.collect(rec)
+                self.issue_del(rec, wires)
+                return [0, wires, [0, exc_code(x)]], None
+            wires = self.collect(rec)
+            self.issue_del(rec, wires)
+            return [0, wires, [1]], None
+        if k == 5:
+            if not self.queue:
+                return [1, 2], None
+            q = self.queue.pop(0)
+            rec = q['rec']
+            ok, err = True, None
+            if q['kind'] == 0:
+                if self.accepted(q['text']):
+                    self.held[q['text']] = self.held.get(q['text'], 0) + 1
+                else:
+                    ok, err = False, 'org.freedesktop.DBus.Error.MatchRuleInvalid'
+            else:
+                if self.held.get(q['text'], 0) > 0:
+                    self.held[q['text']] -= 1
+                else:
+                    ok, err = False, 'org.freedesktop.DBus.Error.MatchRuleNotFound'
+            if q['reply']:
+                p.dataReceived(I.reply(q['serial']) if ok else I.error_reply(q['serial'], err))
+            self.collect(None)
+            if rec is None:
+                return [1, 'unattributed'], None
+            if rec['kind'] == 'add':
+                r = rec['got'][0] if rec['got'] else [0, 'no-completion']
+                if r[0] == 1:
+                    rec['box'][0] = r[1]
+                    self.status[r[1]] = 'live'
+                    self.info[r[1]] = (rec['rule'], rec['tag'], rec['proxy'])
+                return [1, 0, r], None
+            i = rec['id']
+            if q['kind'] == 1:
+                if ok:
+                    if self.status.get(i) == 'removing':
+                        self.status[i] = 'removed'
+                else:
+                    self.refused.append((i, rec.get('was')))
+                    if self.status.get(i) == 'removing':
+                        self.status[i] = 'live'
+            if rec['cancel']:
+                return [1, 1, '?'], ('refused', i, rec.get('was')) if not ok else None
+            r = rec['got'][0] if rec['got'] else [0, 'no-completion']
+            return [1, 1, r], ('refused', i, rec.get('was')) if not ok else None
+        fwd = self.forwards(e[1])
+        self.log = []
+        esc = [1]
+        if fwd:
+            try:
+                p.dataReceived(I.raw(e[1]))
+            except (Exception, CbOdd) as x:
+                esc = [0, exc_code(x)]
+        self.collect(None)
+        log, self.log = self.log, None
+        return [2, 1 if fwd else 0, sorted([i, t] for _, i, t in log)], ('sig', log, esc)
+
+
+def dec_aobs(o):
+    if o[0] == 0:
+        return [0, [[w[0], dec_str(w[1])] for w in o[1]], [1] if o[2][0] == 1 else [0, o[2][1]]]
+    if o[0] == 1:
+        if o[1] == 0:
+            return [1, 0, dec_res(o[2])]
+        if o[1] == 1:
+            return [1, 1, [1] if o[2][0] == 1 else [0, o[2][1]]]
+        return [1, 2]
+    return [2, o[1], sorted([i, t] for i, t in o[2])]
+
+
+def dump_aevent(e):
+    if e[0] == 0:
+        return dump_event(e)
+    if e[0] == 1:
+        return '(1 %d)' % e[1]
+    if e[0] == 2:
+        return '(2 %s)' % dump_msg(e[1])
+    if e[0] == 3:
+        return '(3 (%d %d ()))' % (e[1][0], 1 if e[1][1] else 0)
+    if e[0] == 4:
+        return '(4 %d)' % e[1]
+    return '(5)'
+
+
 def dec_cobs(o):
     if o[0] == 0:
         return [0, [[w[0], dec_str(w[1])] for w in o[1]], dec_res(o[2])]
@@ -809,6 +1004,14 @@ def evaluate(ctx, cases, res):
             for r in rules:
                 for m in msgs:
                     want(r, m)
+        elif kind == 'async':
+            lines.append('(12 6 %s %s (%s))' % (O(c[1]), dump_rule(PRULE), ' '.join(dump_aevent(e) for e in c[2])))
+            rules = [e[1] for e in c[2] if e[0] == 0] + [PRULE]
+            msgs = [e[1] for e in c[2] if e[0] == 2]
+            for r in rules:
+                want_text(r)
+                for m in msgs:
+                    want(r, m)
         elif kind == 'cdaemon':
             lines.append('(12 5 (%s))' % ' '.join(dump_event(e) for e in c[1]))
             rules = [e[1] for e in c[1] if e[0] == 0]
@@ -927,6 +1130,71 @@ def evaluate(ctx, cases, res):
                                     'text:remove-differs-from-add')
                 for rule, text in run.texts:
                     late.append((c, None, 'TEXT', rule, text))
+        elif kind == 'async':
+            declared, events = c[1], c[2]
+            by_text, acc = {}, {}
+            for r in [e[1] for e in events if e[0] == 0] + [PRULE]:
+                to = pair_outs[pair_ix[key(('text', canon_rule(r)))]]
+                t = dec_str(to[0])
+                if canon_rule(r) not in [canon_rule(x) for x in by_text.setdefault(t, [])]:
+                    by_text[t].append(r)
+                acc[t] = to[2] == 1
+            run = AsyncRun(I, declared, by_text, lambda t: acc.get(t, True), verdict)
+            nontrivial = False
+            differs = False
+            for n, (e, mo) in enumerate(zip(events, o)):
+                ob, extra = run.step(e)
+                model_ob = dec_aobs(mo)
+                if ob[:2] == [1, 1] and ob[2] == '?' and model_ob[:2] == [1, 1]:
+                    model_ob = [1, 1, '?']        # the Deferred of a cancel's delMatch is not handed out
+                if extra and extra[0] == 'refused' and extra[2] in ('live', 'removing'):
+                    violate(c, 'event %d: the RemoveMatch written for rule %r (%s when written) was refused by the daemon '
+                            '(it holds %r)' % (n, extra[1], extra[2], dict((t, k) for t, k in run.held.items() if k)),
+                            'client:remove-refused')
+                if e[0] == 2:
+                    _, log, esc = extra
+                    dist['routes'] += 1
+                    dist['callbacks_called'] += len(ob[2])
+                    dist['daemon_forwarded'] = dist.get('daemon_forwarded', 0) + ob[1]
+                    if esc != [1]:
+                        violate(c, 'event %d: dataReceived let an exception escape (%r)' % (n, esc),
+                                'route:exception-escaped')
+                    calls = {}
+                    for x in log:
+                        calls[x[1]] = calls.get(x[1], 0) + 1
+                    for i in sorted(set(list(calls) + list(run.info)), key=repr):
+                        cnt = calls.get(i, 0)
+                        st = run.status.get(i)
+                        if i not in run.info:
+                            violate(c, 'event %d: a callback was called for rule id %r that was never registered' % (n, i),
+                                    'client:removed-rule-invoked')
+                            continue
+                        rule, tag, via = run.info[i]
+                        nontrivial = True
+                        sat_rule = verdict(rule, e[1])[0]
+                        sat = sat_rule and (not via or gate_ok(declared, e[1]))
+                        if st == 'removed' and cnt:
+                            violate(c, 'event %d: callback of rule %r called though the rule is removed' % (n, i),
+                                    'client:removed-rule-invoked')
+                        elif cnt > 1:
+                            violate(c, 'event %d: callback of rule %r called %d times' % (n, i, cnt), 'route:called-twice')
+                        elif cnt and not sat_rule:
+                            late.append((c, 'event %d: callback of rule %r %r called for a signal that does not satisfy '
+                                         'it' % (n, i, rule), 'match:called-unsatisfied', rule, e[1]))
+                        elif cnt and not sat:
+                            violate(c, 'event %d: subscription %r called though the signal signature is not the declared '
+                                    'one' % (n, i), 'proxy:called-wrong-signature')
+                        elif st == 'live' and sat and not cnt:
+                            violate(c, 'event %d: rule %r is live (%s) and the signal satisfies it, but its callback was '
+                                    'not called (the daemon holds %r, signal %s)'
+                                    % (n, i, 'proxy subscription' if via else 'client rule',
+                                       dict((t, k) for t, k in run.held.items() if k),
+                                       'forwarded' if ob[1] else 'not forwarded'), 'client:live-rule-not-served')
+                if ob != model_ob and not differs:
+                    differs = True
+                    res.disagree(c, ['event', n, ob], ['event', n, model_ob])
+            res.count(c, nontrivial=nontrivial)
+            res.traces += 1
         elif kind == 'cdaemon':
             events = c[1]
             by_text, acc = {}, {}
@@ -1449,6 +1717,68 @@ def gen_cdaemon_cases(ctx):
         yield ['cdaemon', ev]
 
 
+def gen_async_cases(ctx):
+    """client / proxy histories with the daemon answering later"""
+    rng = ctx.rng
+    tick_s = ['real', 4, '/a/b', 'org.ex.P', 'Tick', None, ':1.9', None, [['s', 'x']]]
+    tick_i = ['real', 4, '/a/b', 'org.ex.P', 'Tick', None, ':1.9', None, [['n', 0]]]
+    other = ['real', 4, '/a/bc', 'org.ex.P', 'Tick', None, ':1.9', None, [['s', 'x']]]
+    L = ctx.n(4, 5)
+
+    def tagged(ev):
+        out = []
+        for j, e in enumerate(ev):
+            e = list(e)
+            if e[0] == 3:
+                e[1] = [j, j % 4 == 3, []]
+            elif e[0] == 0:
+                e[2] = [j, j % 4 == 3, []]
+            out.append(e)
+        return out
+
+    # two or three subscriptions to the same signal on one proxy (identical rule text), all answered; then every
+    # sequence over {cancel 0, cancel 1, answer, signal, subscribe again}; then the pending calls are answered
+    mid = [[4, 0], [4, 1], [5], [2, tick_s], [3, None]]
+    for k in (2, 3):
+        pre = [[3, None]] * k + [[5]] * k
+        for n in range(1, L + 1):
+            for t in itertools.product(range(len(mid)), repeat=n):
+                ev = pre + [mid[x] for x in t] + [[5]] * n + [[2, tick_s], [2, other]]
+                yield ['async', 's', tagged(ev)]
+    # the client layer: the same rule added twice and answered; del of each id at most once
+    rA = ['signal', None, 'org.ex.P', None, None, '/a', None, [[0, 'x']], [], None]
+    mid = [[1, 0], [1, 1], [5], [2, tick_s], [0, rA, None]]
+    pre = [[0, rA, None], [0, rA, None], [5], [5]]
+    for n in range(1, L + 1):
+        for t in itertools.product(range(len(mid)), repeat=n):
+            if t.count(0) > 1 or t.count(1) > 1:
+                continue             # a rule id is handed to delMatch once (see ASSUMPTIONS)
+            ev = pre + [mid[x] for x in t] + [[5]] * n + [[2, tick_s], [2, other]]
+            yield ['async', 's', tagged(ev)]
+    # random: subscriptions, client rules, cancels of any id (repeated), answers and signals in any order
+    for _ in range(ctx.n(500, 6000)):
+        declared = rng.choice(['s', 's', 's', '', None, 'i'])
+        rules = [rA, list(EMPTY_RULE), ['signal', None, None, 'Tick', None, None, None, [], [[0, '/a/']], None]]
+        ev = []
+        for j in range(rng.randrange(5, 18)):
+            q = rng.random()
+            if q < 0.22:
+                ev.append([3, None])
+            elif q < 0.30:
+                ev.append([0, rng.choice(rules), None])
+            elif q < 0.50:
+                i = rng.randrange(0, 4)
+                ev.append([4, i])
+                if rng.random() < 0.5:
+                    ev.append([4, i])
+            elif q < 0.80:
+                ev.append([5])
+            else:
+                ev.append([2, rng.choice([tick_s, tick_s, tick_i, other])])
+        ev += [[5]] * rng.randrange(0, 6) + [[2, rng.choice([tick_s, tick_i])]]
+        yield ['async', declared, tagged(ev)]
+
+
 def gen_text_cases(ctx):
     rng = ctx.rng
     yield ['text', list(EMPTY_RULE)]
@@ -1507,13 +1837,17 @@ def run(ctx, res):
                 'daemon (multiset of rule texts): every history of length <= %d over {add A, add B, del 0, del 1, del 2, '
                 'signal A, signal B} containing an add (the same text registered repeatedly, instances removed), the same with '
                 'the catch-all rule (no constraint, text \'\') in place of B, and random '
-                'ones over 1-3 rules; (c) AddMatch texts read back by '
+                'ones over 1-3 rules; (b3) the same layers with the daemon answering later: two or three subscriptions to one signal on one proxy '
+                '(identical rule text), then every sequence of length <= %d over {cancel 0, cancel 1, answer, signal, subscribe}, '
+                'then the pending calls answered and signals; the analogous client-layer family; random mixes with repeated '
+                'cancels; (c) AddMatch texts read back by '
                 'the real Bus.dbus_AddMatch, and a malformed text stream; (d) proxy subscriptions: 8 declared '
                 'signatures x 8 bodies x cancelled or not, plus random. non-trivial = the rule has a constraint / a '
-                'route with a registered rule / non-empty text; distinct by hash' % (ctx.n(4, 5), ctx.n(4, 5)))
+                'route with a registered rule / non-empty text; distinct by hash' % (ctx.n(4, 5), ctx.n(4, 5), ctx.n(4, 5)))
     evaluate(ctx, gen_pairs(ctx), res)
     evaluate(ctx, gen_hist_cases(ctx), res)
     evaluate(ctx, gen_cdaemon_cases(ctx), res)
+    evaluate(ctx, gen_async_cases(ctx), res)
     evaluate(ctx, gen_text_cases(ctx), res)
     evaluate(ctx, gen_proxy_cases(ctx), res)
     res.exhaustive = True
